@@ -5,6 +5,7 @@ package main
 // only if the rule holds for exactly the bytes being verified.  Also: byte flips of a signed image.
 
 import (
+	"time"
 	"bytes"
 	"crypto/sha256"
 	"crypto/x509"
@@ -98,6 +99,116 @@ func attachSignatures(ti *testImage, blobs ...[]byte) []byte {
 	put32(b, ti.img.dd4, uint32(va))
 	put32(b, ti.img.dd4+4, uint32(len(b)-va))
 	return b
+}
+
+// nestAtEOF delivers b and, before it reports the end of the stream, lets another complete operation run
+type nestAtEOF struct {
+	b      []byte
+	nested func()
+	done   bool
+}
+
+func (n *nestAtEOF) Read(p []byte) (int, error) {
+	if len(n.b) == 0 {
+		if !n.done {
+			n.done = true
+			n.nested()
+		}
+		return 0, io.EOF
+	}
+	k := copy(p, n.b)
+	n.b = n.b[k:]
+	return k, nil
+}
+
+// gateReaderAt serves a file; once armed, its stallAt-th positional read announces itself and waits for permission to go on
+type gateReaderAt struct {
+	b       []byte
+	armed   bool
+	calls   int
+	stallAt int
+	stalled chan struct{}
+	resume  chan struct{}
+}
+
+func (g *gateReaderAt) ReadAt(p []byte, off int64) (int, error) {
+	if g.armed {
+		g.calls++
+		if g.calls == g.stallAt {
+			g.stalled <- struct{}{}
+			<-g.resume
+		}
+	}
+	if off < 0 || off >= int64(len(g.b)) {
+		return 0, io.EOF
+	}
+	n := copy(p, g.b[off:])
+	if n < len(p) {
+		return n, io.EOF
+	}
+	return n, nil
+}
+
+// overlappedVerify runs Verify of image x and of image g on two goroutines with a fixed interleaving: x until its stallAt-th read
+// while verifying, then g until its stallAt-th read, then x to its end, then g to its end.  ok=false: the interleaving could not
+// be arranged (a verification finished before it reached the gate, or took too long) and nothing is concluded.
+func overlappedVerify(x, g []byte, cert *x509.Certificate, stallAt int) (string, string, bool) {
+	type res struct{ v string }
+	run := func(b []byte) (*gateReaderAt, chan res) {
+		gr := &gateReaderAt{b: b, stallAt: stallAt, stalled: make(chan struct{}, 1), resume: make(chan struct{}, 1)}
+		out := make(chan res, 1)
+		go func() {
+			var ok bool
+			var err error
+			o, _ := guard(func() error {
+				p, e := authenticode.Parse(gr)
+				if e != nil {
+					err = e
+					return nil
+				}
+				gr.armed = true
+				ok, err = p.Verify(cert)
+				return nil
+			})
+			out <- res{verdict(ok, err, o)}
+		}()
+		return gr, out
+	}
+	wait := 5 * time.Second
+	g1, o1 := run(x)
+	select {
+	case <-g1.stalled:
+	case <-o1:
+		return "", "", false
+	case <-time.After(wait):
+		g1.resume <- struct{}{}
+		return "", "", false
+	}
+	g2, o2 := run(g)
+	arranged := true
+	select {
+	case <-g2.stalled:
+	case <-o2:
+		arranged = false
+	case <-time.After(wait):
+		arranged = false
+	}
+	g1.resume <- struct{}{}
+	var v1, v2 string
+	select {
+	case r := <-o1:
+		v1 = r.v
+	case <-time.After(wait):
+		arranged = false
+	}
+	g2.resume <- struct{}{}
+	select {
+	case r := <-o2:
+		v2 = r.v
+	case <-time.After(wait):
+		arranged = false
+	}
+	return v1, v2, arranged
 }
 
 var stalePE *authenticode.PECOFFBinary
@@ -277,6 +388,44 @@ func runImgSym(sc M) {
 					break
 				}
 			}
+		}
+	}
+	// two verifications that overlap in time (a service verifying uploads): the changed image's verification waits in its reader
+	// after the changed bytes went in; meanwhile the genuine image's verification starts and comes to wait at the same point; then the
+	// first one runs to its end.  Each verification is about its own bytes only, so the changed image must not verify.
+	if r == "true" {
+		mut := append([]byte{}, file...)
+		mut[0x12] ^= 0x40 // a covered byte of the DOS header, in the first piece that is hashed
+		if v1, v2, ok := overlappedVerify(mut, file, cert, 2); ok {
+			if v1 == "true" || v1 == "true+error" {
+				bad = append(bad, "overlapped: an image with a changed covered byte verifies when the genuine image is being verified at the same time")
+			}
+			results["overlapped"] = v1 + "/" + v2
+		}
+		// the stream form: the verification of other bytes under this signature waits at the end of its stream while the signed
+		// hash input is verified from start to end
+		u := ti.unsigned
+		hi := append(append(append([]byte{}, u[:ti.img.cksum]...), u[ti.img.cksum+4:ti.img.dd4]...), u[ti.img.dd4+8:]...)
+		hi = append(hi, make([]byte, (8-len(u)%8)%8)...)
+		other := append([]byte{}, hi...)
+		other[0x12] ^= 0x40
+		var ok1 bool
+		var err1 error
+		o1, _ := guard(func() error {
+			a, e := authenticode.ParseAuthenticode(blob)
+			if e != nil {
+				err1 = e
+				return nil
+			}
+			ok1, err1 = a.Verify(cert, &nestAtEOF{b: other, nested: func() {
+				if a2, e2 := authenticode.ParseAuthenticode(blob); e2 == nil {
+					a2.Verify(cert, bytes.NewReader(hi))
+				}
+			}})
+			return nil
+		})
+		if v := verdict(ok1, err1, o1); v == "true" || v == "true+error" {
+			bad = append(bad, "overlapped-stream: a stream that differs from the signed hash input verifies when the signed input is verified while it waits at its end")
 		}
 	}
 	// covered-byte flips of an image that verifies: no flip may leave it verifying
